@@ -19,7 +19,7 @@ REQUIRED = ['getNBest_scale', 'plurality_scale', 'highestAverages_scale', 'sumVa
             'bucklin_scale', 'bucklinWhole_scale', 'hare_homogeneousSTV', 'stvSelector_scale', 'stvDistributor_scale']
 # families whose scale invariance is proved in Lean (Props/C11.lean); the rest is covered by the oracle only
 PROVED_FAMILIES = ['plurality', 'ha_d_hondt', 'ha_sainte_lague', 'ha_imperiali', 'ha_danish', 'ha_macau', 'quota_selector_hare',
-                   'rel_threshold_5pc', 'rel_threshold_third',
+                   'rel_threshold_5pc', 'rel_threshold_third', 'rel_threshold_5pc_decimal', 'rel_threshold_5pc_float',
                    'lr_hare', 'lr_hagenbach_bischoff', 'lr_imperiali', 'qd_hare',
                    'positional_borda', 'positional_borda0', 'positional_dowdall', 'positional_geometric',
                    'positional_modified_borda', 'positional_fixed_top3', 'approval_av', 'approval_sav',
@@ -40,7 +40,8 @@ BIG_MULTIPLIERS = [10 ** 25 + 7, 2 ** 70 + 1, 3 * 10 ** 30 + 11, 10 ** 25 + 7]  
 # factor keeps odd in both runs and an even factor repairs in the scaled run)
 HALF_MULTIPLIERS = [10 ** 25 + 7, 2 * (10 ** 25 + 7), 10 ** 6, 2 ** 70 + 1, 2, 3 * 10 ** 30 + 11, 2 ** 70, 7]
 NAMES = Names(prefix='cand')
-REL_THRESHOLDS = {'rel_threshold_5pc': ('1/20', True), 'rel_threshold_third': ('1/3', False)}   # as built in families.py
+REL_THRESHOLDS = {'rel_threshold_5pc': ('1/20', True), 'rel_threshold_third': ('1/3', False),
+                  'rel_threshold_5pc_decimal': ('1/20', True), 'rel_threshold_5pc_float': ('3602879701896397/72057594037927936', True)}   # as built in families.py
 DIST_FAMILIES = ('ha_', 'lr_', 'qd_')
 SCORERS = {'positional_borda': {'s': 'Borda', 'base': 1}, 'positional_borda0': {'s': 'Borda', 'base': 0},
            'positional_dowdall': {'s': 'Dowdall'}, 'positional_geometric': {'s': 'Geometric', 'base': 2},
@@ -136,7 +137,7 @@ def _init_unproved():
 
 _init_unproved()
 REQUIRED_COUNTERS = (['score_fraction_counts', 'score_large_factor', 'scale', 'near_tie', 'equal_rational', 'beyond_2^53', 'modelled',
-                      'lr_equal_remainders', 'exact_half_or_quota', 'odd_total_half', 'even_factor']
+                      'lr_equal_remainders', 'threshold_boundary', 'exact_half_or_quota', 'odd_total_half', 'even_factor']
                      + ['m:' + f for f in PROVED_FAMILIES])      # every proved family is also run through its Lean model
 RULE = ('every scale-free evaluator family of the quantifier (plurality, divisor methods, largest remainder with exact quotas, '
         'Condorcet methods, STV-Gregory with Hare quota, Bucklin/Oklahoma, positional, approval, score, majority judgment, STAR, '
@@ -192,6 +193,25 @@ def generate(rng, tier):
                 k = MULTIPLIERS[t % len(MULTIPLIERS)]
                 yield {'op': 'scale', 'family': f.name, 'prof': [[i, str(v)] for i, v in enumerate(vals)], 'n': n, 'k': str(k),
                        '_tags': ['scale', 'lr_equal_remainders'] + (['beyond_2^53'] if k > 2 ** 53 else [])}
+    # thresholds: a party holding EXACTLY the threshold share (and one vote below / above it at the base scale), at factors
+    # where a product threshold * total is no longer exact in Decimal (28 digits) or double arithmetic
+    for f in F:
+        if f.name in REL_THRESHOLDS:
+            thr = Fraction(REL_THRESHOLDS[f.name][0]).limit_denominator(1000)      # 1/20 for the float family too
+            for t in range(12 if tier == 'quick' else 120):
+                T = rng.randint(1, 60)
+                a = thr.numerator * T + rng.choice([0, 0, 0, -1, 1])
+                rest = thr.denominator * T - a
+                parts = [rest]
+                if rest > 2 and rng.random() < 0.6:
+                    x = rng.randint(1, rest - 1)
+                    parts = [x, rest - x]
+                vals = [a] + parts
+                order = list(range(len(vals)))
+                rng.shuffle(order)
+                k = (BIG_MULTIPLIERS + [10 ** 30 + 570, 10 ** 6])[t % (len(BIG_MULTIPLIERS) + 2)]
+                yield {'op': 'scale', 'family': f.name, 'prof': [[i, str(vals[i])] for i in order], 'n': 1, 'k': str(k),
+                       '_tags': ['scale', 'threshold_boundary'] + (['beyond_2^53'] if k > 2 ** 53 else [])}
     # exactly half is not a majority, exactly the quota is the quota - at magnitudes where a float quota is off by 10^9:
     # Bucklin/Oklahoma: the first choice of exactly half of the voters, everybody's second choice wins in round 2;
     # STV-Gregory-Hare: a candidate holding exactly the Hare quota on first preferences
